@@ -1150,6 +1150,7 @@ impl World {
     /// (absent = 65535 / unlimited, whatever the previous connection had announced).
     pub fn resume_full(&mut self, o: ResumeOpts) -> bool {
         let ResumeOpts { secs_ago, sei, connack_sei, expect_expired, .. } = o;
+        let plain_resume = o.plain;
         let (mut pubs, mut rels) = self.unfinished();
         self.reconnects += 1;
         self.aliases.clear();
@@ -1234,8 +1235,17 @@ impl World {
         // an operation that failed together with the previous connection (its own packet could not be written, so its
         // response channel was dropped: ContextExited) is finished; it holds no slot and nothing is owed for it
         for i in 0..self.m.len() {
-            if let Some(o) = &self.sim.ops[i].out {
+            if let Some(o) = self.sim.ops[i].out.clone() {
                 if matches!(o.err(), Some(ErrSum::ContextExited)) && self.m[i].expected.is_none() && !self.m[i].checked_done {
+                    // ... but an exchange whose packet went out in full and is simply waiting for its acknowledgement has not
+                    // failed: the session keeps it, and its future completes on the new connection (not judged after an expiry,
+                    // where failing is what the abandoned operations must do)
+                    let m = &self.m[i];
+                    let write_failed = m.req_wire.is_none() || (m.kind == Kind::Pub2 && m.ack1 && m.ack1_ok && m.rel_wire.is_none());
+                    if m.kind.is_qos_pub() && !write_failed && !m.dropped && !expect_expired && !plain_resume {
+                        let k = m.kind.name();
+                        self.viol(&["C17"], format!("C17/unfinished-exchange-failed-with-the-connection/{k}"), format!("op{i} ({k}, id {:?}): its packet was written in full and no acknowledgement had arrived when the connection ended; the session is resumed, yet the future had already failed with ContextExited", self.m[i].pkt_id));
+                    }
                     self.m[i].expected = Some(o.clone());
                     self.m[i].checked_done = true;
                     if self.m[i].holds_slot {
@@ -1254,6 +1264,14 @@ impl World {
         for (i, m) in self.m.iter_mut().enumerate() {
             if m.req_wire.is_some() {
                 m.ever_on_wire = true;
+                // whatever was written on the previous connection had been accepted (the decision is otherwise taken while
+                // run() is serving, which it no longer was if the packet was the user's DISCONNECT)
+                if m.accepted.is_none() {
+                    m.accepted = Some(true);
+                    if matches!(m.kind, Kind::Pub0 | Kind::Disc) && m.expected.is_none() {
+                        m.expected = Some(OpOut::Unit(Ok(())));
+                    }
+                }
             }
             if m.req_wire.is_some() && self.sim.ops[i].out.is_some() {
                 m.checked_done = true;
@@ -1278,7 +1296,8 @@ impl World {
                 if self.sim.ops[i].task.alive() && !self.sim.ops[i].held {
                     self.viol(&["C17"], format!("C17/abandoned-op-hangs/{}", self.m[i].kind.name()), format!("op{i}: session expired, yet the abandoned {} future is still pending at quiescence", self.m[i].kind.name()));
                 } else if let Some(o) = &self.sim.ops[i].out {
-                    if self.m[i].expected.is_none() && o.is_ok() {
+                    // (a DISCONNECT or QoS 0 publish is complete once written: its Ok is not the success of an abandoned exchange)
+                    if self.m[i].expected.is_none() && o.is_ok() && !matches!(self.m[i].kind, Kind::Disc | Kind::Pub0) {
                         self.viol(&["C17"], format!("C17/abandoned-op-succeeded/{}", self.m[i].kind.name()), format!("op{i}: completed Ok although its exchange was abandoned with the expired session"));
                     }
                 }
